@@ -123,45 +123,62 @@ def runOk (cm : ClassMap) (ek : Kind) (es : Nat) : Nat → List Field → Bool
   | _, [] => true
   | off, c :: cs => c.off == off && c.size == es && kindOk cm c.kind ek && runOk cm ek es (off + es) cs
 
-/-- same bytes, same size, compatible kind -/
-def pairOk (cm : ClassMap) (pr : Field × List Field) : Bool :=
+/-- why two kinds are not compatible (only called when `kindOk` is false) -/
+def kindWhy : Kind → Kind → String
+  | .int _ n, .int _ n' => if n == n' then "sign" else "kind"
+  | .ptr _, .ptr _ => "pointee"
+  | .fptr _ _, .fptr _ _ => "signature"
+  | _, _ => "kind"
+
+/-- same bytes, same size, compatible kind: `none`, otherwise the category of the disagreement
+    ("offset", "size", "sign", "pointee", "signature", "kind", "run") -/
+def pairWhy (cm : ClassMap) (pr : Field × List Field) : Option String :=
   match pr.2 with
   | [c] =>
-    if isArr pr.1.kind && !isArr c.kind then
+    if c.off != pr.1.off then some "offset"
+    else if c.size != pr.1.size then some "size"
+    else if isArr pr.1.kind && !isArr c.kind then
       match pr.1.kind with
-      | .arr ek n => n == 1 && c.off == pr.1.off && c.size == pr.1.size && kindOk cm c.kind ek
-      | _ => false
-    else c.off == pr.1.off && c.size == pr.1.size && kindOk cm c.kind pr.1.kind
+      | .arr ek n => if n == 1 && kindOk cm c.kind ek then none else some "kind"
+      | _ => some "kind"
+    else if kindOk cm c.kind pr.1.kind then none else some (kindWhy c.kind pr.1.kind)
   | run =>
     match pr.1.kind with
-    | .arr ek n => n != 0 && run.length == n && pr.1.size == n * (pr.1.size / n)
-                   && runOk cm ek (pr.1.size / n) pr.1.off run
-    | _ => false
+    | .arr ek n => if n != 0 && run.length == n && pr.1.size == n * (pr.1.size / n)
+                      && runOk cm ek (pr.1.size / n) pr.1.off run then none else some "run"
+    | _ => some "run"
 
-structure Mismatch where
-  py : String
-  c : String
-  why : String
-  deriving Repr, Inhabited
+def pairOk (cm : ClassMap) (pr : Field × List Field) : Bool := (pairWhy cm pr).isNone
 
-def firstBad (cm : ClassMap) : List (Field × List Field) → Option Mismatch
-  | [] => none
-  | pr :: r => if pairOk cm pr then firstBad cm r
-               else some ⟨pr.1.name, (pr.2.head?.map (·.name)).getD "", "offset/size/kind differ"⟩
+/-- (structure, ctypes field, C member, category) -/
+abbrev Bad := String × String × String × String
 
-/-- the layout check of one class against one structure -/
-def layoutMismatch (cm : ClassMap) (pfx : Bool) (py c : List Field) : Option Mismatch :=
+def memBad (x : Bad) : List Bad → Bool
+  | [] => false
+  | y :: r => (x.1 == y.1 && x.2.1 == y.2.1 && x.2.2.1 == y.2.2.1 && x.2.2.2 == y.2.2.2) || memBad x r
+
+def subsetBad (a b : List Bad) : Bool := a.all fun x => memBad x b
+
+/-- every pair that disagrees -/
+def badPairs (cm : ClassMap) (struct : String) : List (Field × List Field) → List Bad
+  | [] => []
+  | pr :: r => match pairWhy cm pr with
+    | none => badPairs cm struct r
+    | some w => (struct, pr.1.name, (pr.2.head?.map (·.name)).getD "", w) :: badPairs cm struct r
+
+/-- all layout disagreements of one class against one structure; structural failures
+    (more ctypes fields than C members, C members left over) are reported with an empty field name -/
+def layoutBad (cm : ClassMap) (pfx : Bool) (struct : String) (py c : List Field) : List Bad :=
   match pairUp py c with
-  | none => some ⟨"", "", "ctypes class declares more members than the C structure has"⟩
+  | none => [(struct, "", "", "ctypes class declares more members than the C structure has")]
   | some (prs, rest) =>
-    match firstBad cm prs with
-    | some m => some m
-    | none => match rest with
-      | [] => none
-      | c :: _ => if pfx then none else some ⟨"", c.name, "C member not mirrored"⟩
+    badPairs cm struct prs ++
+    match rest with
+    | [] => []
+    | c :: _ => if pfx then [] else [(struct, "", c.name, "C member not mirrored")]
 
 def layoutOk (cm : ClassMap) (pfx : Bool) (py c : List Field) : Bool :=
-  (layoutMismatch cm pfx py c).isNone
+  (layoutBad cm pfx "" py c).isEmpty
 
 /-! ### names -/
 
@@ -198,11 +215,13 @@ structure Tables where
   pySizes : List (String × Nat)
   cm : ClassMap
 
-def classLayoutMismatch (t : Tables) (e : String × String × Bool) : Option Mismatch :=
-  layoutMismatch t.cm e.2.2 (fieldsOf e.1 t.pyRows) (fieldsOf e.2.1 t.cRows)
+def classLayoutBad (t : Tables) (e : String × String × Bool) : List Bad :=
+  layoutBad t.cm e.2.2 e.2.1 (fieldsOf e.1 t.pyRows) (fieldsOf e.2.1 t.cRows)
 
-def allLayoutsOk (t : Tables) : Bool :=
-  t.cm.all fun e => (classLayoutMismatch t e).isNone
+/-- every layout disagreement of every mapped class -/
+def allLayoutBad (t : Tables) : List Bad := t.cm.flatMap (classLayoutBad t)
+
+def allLayoutsOk (t : Tables) : Bool := (allLayoutBad t).isEmpty
 
 def sizeOk (t : Tables) (e : String × String × Bool) : Bool :=
   match lookup e.1 t.pySizes, lookup e.2.1 t.cSizes with
